@@ -710,3 +710,63 @@ pub fn skeletons_f(model: &Model, ctxs: &[&str], ks: &[usize], sizes: &[model::S
     }
     res
 }
+
+/// Decorated spines: one structural production, then a chain of <= `max_dec` cheap single-hole
+/// "decorator" productions (parentheses, unary operators, field access, empty call ...), then a
+/// literal-like leaf production (or an atom). Reaches interactions that need four or five levels
+/// of nesting (`(-3).abs()`, `not (a.b)()` ...) at the cost of a k=2 sweep.
+pub fn decorated_skeletons(model: &Model, ctxs: &[&str], decorators: &[&str], max_dec: usize, leaves: &[&str]) -> Vec<Skeleton> {
+    let dec: Vec<usize> = decorators.iter().map(|n| model.prod_index(n)).collect();
+    let leaf: Vec<usize> = leaves.iter().map(|n| model.prod_index(n)).collect();
+    let mut res = vec![];
+    for c in ctxs {
+        let ci = model.ctx_index(c);
+        let root_hole = model.ctxs[ci].hole;
+        for (pi, p) in model.prods.iter().enumerate() {
+            if p.ugly || p.holes == 0 || !root_hole.accepts(p.sort) {
+                continue;
+            }
+            let mut hi = 0;
+            for seg in &p.segs {
+                let model::Seg::Hole(h) = seg else { continue };
+                let hole_index = hi;
+                hi += 1;
+                if !h.accepts(model::Sort::E) {
+                    continue;
+                }
+                // chains of decorators
+                let mut chains: Vec<Vec<usize>> = vec![vec![]];
+                let mut cur: Vec<Vec<usize>> = vec![vec![]];
+                for _ in 0..max_dec {
+                    let mut next = vec![];
+                    for ch in &cur {
+                        for &d in &dec {
+                            let mut n = ch.clone();
+                            n.push(d);
+                            next.push(n);
+                        }
+                    }
+                    chains.extend(next.iter().cloned());
+                    cur = next;
+                }
+                for ch in &chains {
+                    if ch.is_empty() {
+                        continue; // plain k<=2 spines are covered by the ordinary levels
+                    }
+                    let mut spine = vec![(pi, hole_index)];
+                    for &d in ch {
+                        spine.push((d, 0));
+                    }
+                    // atom at the bottom
+                    res.push(Skeleton { ctx: ci, spine: spine.clone(), size: model::Size::Short });
+                    for &l in &leaf {
+                        let mut s2 = spine.clone();
+                        s2.push((l, 0));
+                        res.push(Skeleton { ctx: ci, spine: s2, size: model::Size::Short });
+                    }
+                }
+            }
+        }
+    }
+    res
+}
